@@ -43,11 +43,15 @@ const (
 	opCount
 )
 
-// verif:bound VerifC17History one client issuing 1..3 operations out of {update, failing update, observe, observe with failing expression, observe with failing callback, cancel, cancel twice, hang-up} against the real engine goroutine, all interleavings
+// verif:bound VerifC17History one client issuing 1..3 (thorough: 1..4) operations out of {update, failing update, observe, observe with failing expression, observe with failing callback, cancel, cancel twice, hang-up} against the real engine goroutine, all interleavings
 // verif:cover VerifC17History observed-update update-rejected
 func VerifC17History() {
 	e := Start()
-	nops := 1 + verifChoice(3)
+	maxOps := 3
+	if verifThorough() {
+		maxOps = 4
+	}
+	nops := 1 + verifChoice(maxOps)
 	states := []int{-1} // -1 stands for the initial {}
 	var obs []*verifObs
 	next := 1
